@@ -1,8 +1,8 @@
 SPECIFICATION Spec
 CONSTANTS
   MENU = "tiny"
-  SHARD = 0
-  NSHARDS = 1
+  LO = 1
+  HI = 1000
   EMIT = FALSE
   Wrong = {}
 INVARIANTS TypeOK BaseDerivable BaseZeroIsEither MapConsistent AcceptDerivable MutationApplied UnchangedAccepted TruncationRejected TruncationInsideVariablePartRejected OverrunRejected DataLengthNeverAccepted HugeNeverAccepted SpliceDisagrees NameNulChecked VersionChecked EncodingChecked NonFlatNeverAccepted
